@@ -45,9 +45,10 @@ type Plan struct {
 	Rows     []Row
 	UserLen  int
 	// failure injection on the direction towards the real node
-	Fault    string // none | cut | wrongkey | wronglabel | plaintext | overcap-nodes | overcap-state
-	CutPos   int    // per-mille of the message length
-	CutMode  string // reset | eof | stall
+	Fault   string // none | cut | wrongkey | wronglabel | plaintext | overcap-nodes | overcap-state
+	CutPos  int    // per-mille of the message length
+	CutAt   string // permille | userstate | userstate-1 | userstate+1 | rows (structural boundaries of a plain message)
+	CutMode string // reset | eof | stall
 }
 
 var namePool = []string{"m1", "m2", "new1", "new2", "new3", "n0", "veto1", "filt1", "m1"}
@@ -90,7 +91,15 @@ func genPlan(t *rapid.T) Plan {
 	p.UserLen = rapid.SampledFrom([]int{0, 0, 7, 1000, 65536}).Draw(t, "userlen")
 	p.Fault = rapid.SampledFrom([]string{"none", "none", "cut", "cut", "cut", "wrongkey", "wronglabel", "plaintext", "overcap-nodes", "overcap-state"}).Draw(t, "fault")
 	p.CutPos = rapid.SampledFrom([]int{0, 1, 2, 10, 500, 900, 990, 998, 999, rapid.IntRange(0, 999).Draw(t, "cutany")}).Draw(t, "cutpos")
-	p.CutMode = rapid.SampledFrom([]string{"reset", "eof", "stall"}).Draw(t, "cutmode")
+	p.CutMode = rapid.SampledFrom([]string{"reset", "eof", "eof", "stall"}).Draw(t, "cutmode")
+	p.CutAt = rapid.SampledFrom([]string{"permille", "permille", "userstate", "userstate", "userstate-1", "userstate+1", "rows"}).Draw(t, "cutat")
+	if p.Fault == "cut" && p.CutAt != "permille" {
+		// structural boundaries are only visible in a plain message
+		p.Encrypt, p.Compress = false, false
+		if p.UserLen == 0 {
+			p.UserLen = 7
+		}
+	}
 	return p
 }
 
@@ -266,8 +275,27 @@ func run(pl Plan) (res vfx.Result) {
 			total = len(msg)
 		}
 		cutAt = pl.CutPos * total / 1000
+		switch pl.CutAt {
+		case "userstate":
+			cutAt = total - len(user) // exactly where the user state would begin
+		case "userstate-1":
+			cutAt = total - len(user) - 1
+		case "userstate+1":
+			cutAt = total - len(user) + 1
+		case "rows":
+			// right after the k-th row (k chosen by CutPos): re-encode the prefix to find the offset
+			k := 0
+			if len(rows) > 0 {
+				k = pl.CutPos % (len(rows) + 1)
+			}
+			prefix := wire.PushPullDeclared(wire.PushPullHeader{Nodes: len(rows), UserStateLen: len(user), Join: pl.Join}, rows[:k], nil)
+			cutAt = total - len(plain) + len(prefix)
+		}
 		if cutAt >= total {
 			cutAt = total - 1
+		}
+		if cutAt < 0 {
+			cutAt = 0
 		}
 	}
 	var joinN int
